@@ -7,10 +7,10 @@ use crate::{
     tcp::{IpVersion, PayloadSize, Quirk, Signature as TcpSignature, TcpOption, Ttl, WindowSize},
 };
 use nom::branch::alt;
-use nom::bytes::complete::{take_until, take_while};
+use nom::bytes::complete::{take_until, take_while1};
 use nom::character::complete::{alpha1, char, digit1};
 use nom::combinator::{map, map_res, opt};
-use nom::multi::{separated_list0, separated_list1};
+use nom::multi::separated_list0;
 use nom::sequence::{pair, separated_pair, terminated};
 use nom::*;
 use nom::{
@@ -430,7 +430,7 @@ fn parse_http_signature(input: &str) -> IResult<&str, HttpSignature> {
     let (input, (version, _, horder, _, habsent, _, expsw)) = (
         parse_http_version,
         tag(":"),
-        separated_list1(tag(","), parse_http_header),
+        separated_list0(tag(","), parse_http_header),
         tag(":"),
         opt(separated_list0(tag(","), parse_http_header)),
         tag(":"),
@@ -458,7 +458,7 @@ fn parse_http_version(input: &str) -> IResult<&str, HttpVersion> {
 
 fn parse_header_key_value(input: &str) -> IResult<&str, (&str, Option<&str>)> {
     pair(
-        take_while(|c: char| (c.is_ascii_alphanumeric() || c == '-') && c != ':' && c != '='),
+        take_while1(|c: char| (c.is_ascii_alphanumeric() || c == '-') && c != ':' && c != '='),
         opt(preceded(tag("=["), terminated(take_until("]"), char(']')))),
     )
     .parse(input)
